@@ -1,6 +1,8 @@
 import Pyunicorn.Model.Proto
 import Pyunicorn.Model.Cross
 import Pyunicorn.Model.CrossBetw
+import Pyunicorn.Model.CrossCCN
+import Pyunicorn.Model.CrossISRN
 /-! Line-protocol driver for C11.
 
 Request: `<measure> <directed 0/1> <N> <A> <w> <D> <LA> <L1> <L2> [<norm>]`
@@ -198,6 +200,108 @@ def normProdAnswer (m ks : String) : String :=
   let mi : Int := m.toInt!
   join ((splitTok ks ",").map fun t => toString (normProdW mi t.toInt!))
 
+/-- round 5: `ccn <directed> <N1> <N> <A> <D> <Dw> <G> <S>`: every layer wrapper of
+`CoupledClimateNetwork` (model `Pyunicorn.CrossCCN`) at once; pairs are `first&second` -/
+def pairS (x y : String) : String := x ++ "&" ++ y
+def showOptMat (B : List (List (Option Rat))) : String :=
+  if B.isEmpty then "-" else join (B.map (showOptRats ·)) ";"
+def pairOpt (e : String) (p : Option Rat × Option Rat) : String :=
+  pairS (showOpt e p.1) (showOpt e p.2)
+def pairOptRaise (e : String) (p : Option Rat × Option Rat) : String :=
+  match p with
+  | (some x, some y) => pairS (showRat x) (showRat y)
+  | _ => e
+def pairRats (p : List Rat × List Rat) : String := pairS (showRats p.1) (showRats p.2)
+
+def ccnAnswer (dir n1 n a d dw g s : String) : String :=
+  let directed := dir != "0"
+  let N1 := n1.toNat!
+  let N := n.toNat!
+  let A : Adj := matFn (boolMat a) false
+  let D : Dist := matFn (optRatMat d) none
+  let Dw : Dist := matFn (optRatMat dw) none
+  let G : Nat → Nat → Rat := matFn (ratMat g) 0
+  let S : Nat → Nat → Rat := matFn (ratMat s) 0
+  let ne := "raise:NetworkError"
+  join [
+    "nodes_1=" ++ showNats (CrossCCN.nodes1 N1),
+    "nodes_2=" ++ showNats (CrossCCN.nodes2 N1 N),
+    "adjacency_1=" ++ showNatMat (CrossCCN.adjacency1 A N1),
+    "adjacency_2=" ++ showNatMat (CrossCCN.adjacency2 A N1 N),
+    "cross_layer_adjacency=" ++ showNatMat (CrossCCN.crossLayerAdjacency A N1 N),
+    "similarity_measure_1=" ++ showRatMat (CrossCCN.similarityMeasure1 S N1 N),
+    "similarity_measure_2=" ++ showRatMat (CrossCCN.similarityMeasure2 S N1 N),
+    "cross_similarity_measure=" ++ showRatMat (CrossCCN.crossSimilarityMeasure S N1 N),
+    "path_lengths_1=" ++ showOptMat (CrossCCN.pathLengths1 D N1),
+    "path_lengths_2=" ++ showOptMat (CrossCCN.pathLengths2 D N1 N),
+    "cross_path_lengths=" ++ showOptMat (CrossCCN.crossPathLengths D N1 N),
+    "path_lengths_1(la)=" ++ showOptMat (CrossCCN.pathLengths1 Dw N1),
+    "path_lengths_2(la)=" ++ showOptMat (CrossCCN.pathLengths2 Dw N1 N),
+    "cross_path_lengths(la)=" ++ showOptMat (CrossCCN.crossPathLengths Dw N1 N),
+    "cross_link_distance=" ++ showRatMat (CrossCCN.crossLinkDistance G N1 N),
+    "cross_average_link_distance=" ++
+      showOptRats (CrossCCN.crossAverageLinkDistance false A G N1 N) "nan",
+    "cross_average_link_distance(reverse)=" ++
+      showOptRats (CrossCCN.crossAverageLinkDistance true A G N1 N) "nan",
+    "number_cross_layer_links=" ++
+      (if directed then ne else toString (CrossCCN.numberCrossLayerLinks A N1 N)),
+    "number_internal_links=" ++
+      (let p := CrossCCN.numberInternalLinks directed A N1 N; pairS (toString p.1) (toString p.2)),
+    "cross_link_density=" ++
+      (if directed then ne else showOpt "raise:ZeroDivisionError" (CrossCCN.crossLinkDensity A N1 N)),
+    "internal_link_density=" ++
+      pairOptRaise "raise:ZeroDivisionError" (CrossCCN.internalLinkDensity directed A N1 N),
+    "internal_global_clustering=" ++ pairOpt "nan" (CrossCCN.internalGlobalClustering A N1 N),
+    "cross_global_clustering=" ++ pairOpt "nan" (CrossCCN.crossGlobalClustering directed A N1 N),
+    "cross_transitivity=" ++
+      (let p := CrossCCN.crossTransitivity A N1 N; pairS (showRat p.1) (showRat p.2)),
+    "cross_average_path_length=" ++ showOpt "nan" (CrossCCN.crossAPL D N1 N),
+    "cross_average_path_length(la)=" ++ showOpt "nan" (CrossCCN.crossAPL Dw N1 N),
+    "internal_average_path_length=" ++ pairOpt "nan" (CrossCCN.internalAPL D N1 N),
+    "internal_average_path_length(la)=" ++ pairOpt "nan" (CrossCCN.internalAPL Dw N1 N),
+    "cross_degree=" ++
+      (let p := CrossCCN.crossDegree directed A N1 N; pairS (showNats p.1) (showNats p.2)),
+    "internal_degree=" ++
+      (let p := CrossCCN.internalDegree directed A N1 N; pairS (showNats p.1) (showNats p.2)),
+    "cross_local_clustering=" ++ pairRats (CrossCCN.crossLocalClustering directed A N1 N),
+    "cross_closeness=" ++ pairRats (CrossCCN.crossCloseness D N1 N),
+    "cross_closeness(la)=" ++ pairRats (CrossCCN.crossCloseness Dw N1 N),
+    "internal_closeness=" ++ pairRats (CrossCCN.internalCloseness D N1 N),
+    "internal_closeness(la)=" ++ pairRats (CrossCCN.internalCloseness Dw N1 N),
+    "cross_betweenness=" ++
+      (if !betwAssertHolds directed N A then "raise:AssertionError"
+       else pairRats (CrossCCN.crossBetweenness A N1 N)),
+    "internal_betweenness_1=" ++
+      (if !betwAssertHolds directed N A then "raise:AssertionError"
+       else pairRats (CrossCCN.internalBetweenness1 A N1 N)),
+    "internal_betweenness_2=" ++
+      (if !betwAssertHolds directed N A then "raise:AssertionError"
+       else pairRats (CrossCCN.internalBetweenness2 A N1 N))] "|"
+
+/-- round 5: `isrn <N_x> <N> <R_x> <CR_xy> <R_y>`: the adjacency matrix of an
+`InterSystemRecurrenceNetwork` assembled from its three recurrence matrices
+(model `Pyunicorn.CrossISRN`), its four wrappers, the cross recurrence rate -/
+def isrnAnswer (nx n rx cxy ry : String) : String :=
+  let Nx := nx.toNat!
+  let N := n.toNat!
+  let Rx : Nat → Nat → Bool := matFn (boolMat rx) false
+  let Cxy : Nat → Nat → Bool := matFn (boolMat cxy) false
+  let Ry : Nat → Nat → Bool := matFn (boolMat ry) false
+  let A0 := CrossISRN.adjacency Rx Cxy Ry Nx N
+  let tab := blockN A0 (List.range N) (List.range N)
+  let A : Adj := matFn (tab.map fun r => r.map (· != 0)) false
+  join [
+    "adjacency=" ++ showNatMat tab,
+    "cross_global_clustering_xy=" ++ showOpt "nan" (CrossISRN.crossGlobalClusteringXY A Nx N),
+    "cross_global_clustering_yx=" ++ showOpt "nan" (CrossISRN.crossGlobalClusteringYX A Nx N),
+    "cross_transitivity_xy=" ++ showRat (CrossISRN.crossTransitivityXY A Nx N),
+    "cross_transitivity_yx=" ++ showRat (CrossISRN.crossTransitivityYX A Nx N),
+    "cross_recurrence_rate=" ++
+      showOpt "raise:ZeroDivisionError" (CrossISRN.crossRecurrenceRate Cxy Nx (N - Nx)),
+    "cross_link_density_xy=" ++ showOpt "raise:ZeroDivisionError"
+      (crossLinkDensity A (CrossCCN.nodes1 Nx) (CrossCCN.nodes2 Nx N)),
+    "n_links=" ++ toString (netNLinks false N A)] "|"
+
 /-- `all …` answers every measure at once: `name=value|name=value|…` -/
 def answer (toks : List String) : String :=
   match toks with
@@ -205,6 +309,8 @@ def answer (toks : List String) : String :=
   | "betwdef" :: args => join (defNames.map fun nm => nm ++ "=" ++ measureOf (nm :: args)) "|"
   | ["net", dir, n, a, w, d] => netAnswer dir n a w d
   | ["net", dir, n, a, w, d, dw] => netAnswer dir n a w d dw
+  | ["ccn", dir, n1, n, a, d, dw, g, s] => ccnAnswer dir n1 n a d dw g s
+  | ["isrn", nx, n, rx, cxy, ry] => isrnAnswer nx n rx cxy ry
   | ["normprod", m, ks] => normProdAnswer m ks
   | ["sumw", m, xs] => toString (sumW m.toInt! ((splitTok xs ",").map fun t => t.toInt!))
   | _ => measureOf toks
